@@ -66,9 +66,12 @@ class Driver:
         self.nprobe = 0
         self.moved_out = {}  # outside path of a directory that was moved out -> its old path inside the tree
         self.names = {}  # logical name -> bytes on disk (C19: odd spellings)
+        self.known = set()
 
     def b(self, name):
-        return self.names.get(name, name.encode())
+        d = self.names.get(name, name.encode())
+        self.known.add(d)       # every on-disk name the driver ever used (C19: a component outside this set is not a name)
+        return d
 
     def rp(self, rel):
         return os.path.join(self.R, *[self.b(n) for n in rel]) if rel else self.R
@@ -390,11 +393,13 @@ def pipeline_program(params):
             for c in comps:
                 if c in inv:
                     out.append(inv[c])
-                else:
+                elif c in drv.known:
                     try:
                         out.append(c.decode("ascii"))
                     except UnicodeDecodeError:
                         out.append("?")
+                else:
+                    out.append("?")     # not the exact name of anything the driver ever created
             return {"ty": tag, "p": out}
 
         class Rec(events.FileSystemEventHandler):
